@@ -29,7 +29,10 @@ LEVEL_TEXT = ("Machine-checked Lean proof, for every weight vector and every sta
               "weights[i] times, that newScheduler over exact rationals yields a 65535 entry, round(65535*w/max) per backend, "
               "the mean for zero weights and round robin exactly in the stated fallback cases, and that endpointWeight.weight "
               "is 0 before the first report / after expiry / in blackout and otherwise the formula of the latest report.")
-LEVEL_NOTE = ("Reading: `scaled weight` is the uint16 the code computes; its relation to the input weights is proved for exact "
+LEVEL_NOTE = ("Weight monitor: from the op history alone it tracks the latest non-empty report and the start of the current "
+              "blackout window (first non-empty report since the start or since the last query that saw the data expired) and demands "
+              "0 exactly when there is no report / the data is expired / the blackout is running, and otherwise exactly the latest "
+              "report's weight (a 0 there is a violation). Reading: `scaled weight` is the uint16 the code computes; its relation to the input weights is proved for exact "
               "rational arithmetic and monitored on the float code (entries may differ by 1 only when 65535*w/max is within "
               "2^-20 of a rounding boundary). The statement's `at most n sequence numbers` and `any window` are violated by the "
               "unchanged code only across the uint32 wrap of picker.idx (which starts at rand.Uint32()): known finding F8b. "
@@ -43,7 +46,9 @@ RULE = ("win: real edfScheduler over weight vectors (n 1..64; zeros, 1, 32767/32
         "65535 entry) from random / boundary / wrap-crossing counter values, windows of k*65535*n and short windows; edf/rr+next: "
         "pick-by-pick; scale: picker.newScheduler on float64 weight vectors (zeros, equals, integers, random, ratios up to 1e12, "
         "rounding-boundary ratios, magnitudes 1e-200..1e200); timelines: cfg/eps/adv/report/weight/sched/next histories on real "
-        "endpointWeights under a virtual clock. A case is non-trivial if it contains a pick or a scheduler/weight evaluation.")
+        "endpointWeights under a virtual clock; steady-state timelines: the same report (or another report with the bit-identical "
+        "weight) repeated with gaps < expiration until the clock is far past blackout and expiration counted from the first of "
+        "them, with silence/expiry/resume phases, the weight queried after every report. A case is non-trivial if it contains a pick or a scheduler/weight evaluation.")
 
 M = 65535
 W32 = 2 ** 32
@@ -165,6 +170,49 @@ def timeline(rng, length):
     return ops
 
 
+def steady_timeline(rng):
+    """A backend in steady state: the same load report (or a different report with the same weight) arrives again and
+    again while the clock runs past the blackout and the expiration period measured from the FIRST of them; the weight
+    is queried after every report. Other endpoints get varying reports, go silent (expire) and come back."""
+    sec = 10 ** 9
+    blackout = rng.choice([0, sec, 2 * sec, rng.randrange(1, 5 * sec)])
+    exp = rng.choice([3 * sec, 5 * sec, 10 * sec, 180 * sec])
+    penalty = rng.choice([1.0, 0.0, 0.5, 2.0])
+    k = rng.randrange(1, 4)
+    ops = ["cfg %d %d %d" % (blackout, exp, bits(penalty)), "eps %d" % k]
+    util = rng.choice([0.25, 0.5, 0.7, rng.uniform(0.05, 1.0)])
+    rps = rng.choice([100.0, 64.0, 250.0, float(rng.randrange(1, 2000))])
+    eps_ = rng.choice([0.0, 0.0, 1.0, rng.uniform(0, 10)])
+    use_cpu = rng.random() < 0.3
+    def steady(scale=1.0):
+        # scaling qps and utilization by a power of two (eps = 0) leaves the weight bit-identical
+        u, q, e = util * scale, rps * scale, (eps_ if scale == 1.0 else 0.0)
+        return [bits(0.0 if use_cpu else u), bits(u if use_cpu else 0.0), bits(q), bits(e)]
+    if rng.random() < 0.3:
+        eps_ = 0.0
+    gap = rng.choice([exp // 3, exp // 2, exp - 1, sec, max(1, exp // 4)])
+    gap = max(1, min(gap, exp - 1))
+    n = rng.randrange(4, 16)
+    silent_from = rng.randrange(2, n) if rng.random() < 0.3 else n + 1   # endpoint 0 goes silent, expires, then resumes
+    for j in range(n):
+        if j < silent_from or j >= silent_from + exp // gap + 2:
+            sc = 2.0 if (eps_ == 0.0 and rng.random() < 0.3) else 1.0
+            ops.append("report 0 %s" % " ".join(map(str, steady(sc))))
+        for i in range(1, k):
+            if rng.random() < 0.6:
+                ops.append("report %d %s" % (i, " ".join(map(str, rand_report(rng)))))
+        ops.append("adv %d" % rng.choice([gap // 2, gap // 2, 1, gap - 1 if gap > 1 else 1]))
+        ops.append("weight 0")
+        if k > 1 and rng.random() < 0.5:
+            ops.append("weight %d" % rng.randrange(k))
+        if rng.random() < 0.25:
+            ops.append("sched %d" % rng.randrange(W32))
+            ops.append("next %d" % rng.randrange(1, 20))
+        ops.append("adv %d" % (gap - gap // 2))
+    ops.append("weight 0")
+    return ops
+
+
 def gen(rng, tier):
     n_full = {"quick": 24, "thorough": 400, "search": 150}[tier]
     n_short = {"quick": 1500, "thorough": 40000, "search": 20000}[tier]
@@ -232,6 +280,9 @@ def gen(rng, tier):
     # load-report timelines on real endpointWeights
     for j in range(n_time):
         yield Case("wrrstride", timeline(rng, rng.randrange(5, 60)), "timeline-%d" % j)
+    # steady-state timelines: identical / equal-weight reports repeated past the blackout and expiration periods
+    for j in range({"quick": 120, "thorough": 3000, "search": 1500}[tier]):
+        yield Case("wrrstride", steady_timeline(rng), "steady-%d" % j)
 
 
 def nontrivial(case, impl_lines):
